@@ -17,6 +17,7 @@ RULE = ('Random schemas (nested messages, fixed and variable arrays, arrays of m
         'contains_index, integer bounds of UINT8..INT64, constructor rejections. evaluations = schema checks + helper '
         'comparisons; non-trivial = a fault was injected or a nested schema was navigated; distinct = (fault kind, '
         'position kind, event position, schema shape).')
+RULE_ADDED = ' Since the seeding rounds: weak first occurrence, two valid schemas in turn, zero lengths, float-spelled indices, fault number-as-compound, shared message tokens, small-scope enumeration of type-token declarations.'
 ASSUMPTIONS = ['on failure any of TypeError/IndexError/HplSanityError/KeyError counts as "an error"; its message must '
                'mention the offending field name or index', 'unknown topics, missing alias entries and non-integer '
                'literal indices are caller errors and not judged']
